@@ -169,7 +169,12 @@ type tgen struct {
 	r     *kit.Rand
 	plain bool // only `json:"name"` tags (or none), no durations: the encoding/json comparison family
 	seq   int
+	// dotted: half of the tag names contain dots (mapping.WithOpaqueKeys family): without that
+	// option a dotted tag name addresses a nested key
+	dotted bool
 }
+
+var dottedKeys = []string{"srv.name", "srv.port", "a.b", "x.y.z", "db.host", "db.pool.size", "Log.Level"}
 
 var (
 	taggedKeys   = []string{"name", "host", "port", "userName", "MAX_conns", "a", "B", "timeOut", "x1", "data", "list", "m", "cfg", "ID", "enabled", "ratio", "Level", "k1"}
@@ -274,6 +279,8 @@ func (g *tgen) structT(depth, minFields int) reflect.Type {
 		for tries := 0; ; tries++ {
 			if untagged {
 				key = kit.Choose(g.r, untaggedKeys)
+			} else if g.dotted && g.r.Bool() {
+				key = kit.Choose(g.r, dottedKeys)
 			} else {
 				key = kit.Choose(g.r, taggedKeys)
 			}
